@@ -73,23 +73,37 @@ def cases_c09g(gb, rng, tier):
 MEM_RE = re.compile(r'^(ok|err|panic|hang) LIVE (-?\d+) PEAK (\d+) REFS (\d+)$')
 
 
+def has_container(sch, tname):
+    found = [False]
+
+    def pred(n, d):
+        tys = [f['ty'] for f in d.get('fields', [])] + [v['ty'] for v in d.get('variants', [])] + ([d['ty']] if d['kind'] == 'typedef' else [])
+        if any(t[0] in ('list', 'set', 'map') for t in tys):
+            found[0] = True
+        return False
+    genrun.reaches(sch, tname, pred)
+    return found[0]
+
+
 def eval_c09g(gb, case, out):
     m = MEM_RE.match(out or '')
     sch = gb.schema
+    # F-09e: the emitted ASYNC container decoders hand the wire count to with_capacity (abort / capacity-overflow panic /
+    # giant request); the async readers have no remaining-length bound to check it against
+    prealloc = 'async-container-prealloc' if case['mode'] != 'sync' and has_container(sch, case['type']) else None
     if not m:
-        cls = 'async-container-prealloc' if case['mode'] != 'sync' else None
+        cls = prealloc
         if genrun.is_arg_swallow(sch, case['cfg'], case['type'], case['mode']):
             cls = 'keep-is-arg-swallow'
         return [('emitted decoder does not return on malformed input: %s' % (out or '')[:80], cls)]
     kind, peak = m.group(1), int(m.group(3))
     if kind in ('panic', 'hang'):
-        cls = 'keep-is-arg-swallow' if genrun.is_arg_swallow(sch, case['cfg'], case['type'], case['mode']) else None
+        cls = 'keep-is-arg-swallow' if genrun.is_arg_swallow(sch, case['cfg'], case['type'], case['mode']) else prealloc
         return [('emitted decoder %ss on malformed input' % kind, cls)]
     # memory in proportion to the input: decoded values cost a bounded factor per input byte (hash containers,
     # Vec of structs ...); 4 KiB + 512 bytes per input byte is far above anything a faithful decoder needs
     if peak > 4096 + 512 * case['n']:
-        cls = 'async-container-prealloc' if case['mode'] != 'sync' else None
-        return [('emitted decoder requests %d bytes for a %d-byte input' % (peak, case['n']), cls)]
+        return [('emitted decoder requests %d bytes for a %d-byte input' % (peak, case['n']), prealloc)]
     return []
 
 
